@@ -283,6 +283,36 @@ func ruleWire(c *Ctx) {
 			c.check(found, key, c.pos(fn.Pos()), fname(fn), "wired as stated", fmt.Sprintf("%s: %s (expected data-flow fact containing %q not found)", fname(fn), nf.why, strings.Join(nf.has, " ... ")))
 		}
 	}
+	// the degree search: a degree is only ever returned as found by the search, never made up on a shortcut
+	if fn := c.fn("op", "ScaleNote.GetDegree"); fn != nil {
+		c.site(1)
+		isLetterDistance := func(v ssa.Value) bool {
+			call, ok := v.(*ssa.Call)
+			return ok && calleeName(&call.Call) == "note.Name.GetDegree"
+		}
+		isPitch := func(v ssa.Value) bool {
+			call, ok := v.(*ssa.Call)
+			return ok && calleeName(&call.Call) == "op.ScaleNote.Semitone"
+		}
+		problem := ""
+		n := 0
+		for _, r := range returnsOf(fn) {
+			if !isNilConst(retVal(r, 1)) {
+				continue
+			}
+			n++
+			v := retVal(r, 0)
+			if !dataDependsOn(v, isLetterDistance) {
+				problem = "a degree is returned that does not depend on the letter distance between the two notes (its number is made up)"
+			} else if !dataDependsOn(v, isPitch) {
+				problem = "a degree is returned that does not depend on the pitch distance between the two notes (its size is made up)"
+			}
+		}
+		if n == 0 {
+			problem = "no successful return"
+		}
+		c.check(problem == "", "op.ScaleNote.GetDegree|found-only", c.pos(fn.Pos()), fname(fn), fmt.Sprintf("%d successful return(s), each depending on letter distance and pitch distance", n), fname(fn)+": "+problem)
+	}
 	// handlers: describe commands pass target / root / accidental preference through
 	for f, a := range funcAlias {
 		switch a {
@@ -446,4 +476,71 @@ func ruleNameDegree(c *Ctx) {
 		}
 	}
 	c.check(problem == "", name, c.pos(fn.Pos()), name, "letter distance = index(y) - index(x) + 1, searching y onwards from x", name+": "+problem)
+}
+
+
+// dataDependsOn: some value satisfying pred is among the transitive operands of v (through locals, closures' captured
+// variables and the bodies of the closures that are called).
+func dataDependsOn(v ssa.Value, pred func(ssa.Value) bool) bool {
+	seen := map[ssa.Value]bool{}
+	var walk func(x ssa.Value, depth int) bool
+	walk = func(x ssa.Value, depth int) bool {
+		if x == nil || seen[x] || depth > 40 {
+			return false
+		}
+		seen[x] = true
+		if pred(x) {
+			return true
+		}
+		switch y := x.(type) {
+		case *ssa.Alloc:
+			for _, r := range *y.Referrers() {
+				if st, ok := r.(*ssa.Store); ok && st.Addr == ssa.Value(y) && walk(st.Val, depth+1) {
+					return true
+				}
+			}
+			return false
+		case *ssa.FreeVar:
+			// the captured variable: find the binding at the closure's creation
+			fn := y.Parent()
+			idx := -1
+			for i, fv := range fn.FreeVars {
+				if fv == y {
+					idx = i
+				}
+			}
+			if p := fn.Parent(); p != nil && idx >= 0 {
+				found := false
+				allInstrs(p, func(in ssa.Instruction) {
+					if mc, ok := in.(*ssa.MakeClosure); ok && mc.Fn == ssa.Value(fn) && idx < len(mc.Bindings) {
+						if walk(mc.Bindings[idx], depth+1) {
+							found = true
+						}
+					}
+				})
+				return found
+			}
+			return false
+		case *ssa.Call:
+			// the result of a closure depends on what its returns depend on
+			if f := funcOfValue(y.Call.Value); f != nil && f.Parent() != nil {
+				for _, r := range returnsOf(f) {
+					for i := range r.Results {
+						if walk(retVal(r, i), depth+1) {
+							return true
+						}
+					}
+				}
+			}
+		}
+		if in, ok := x.(ssa.Instruction); ok {
+			for _, op := range in.Operands(nil) {
+				if *op != nil && walk(*op, depth+1) {
+					return true
+				}
+			}
+		}
+		return false
+	}
+	return walk(v, 0)
 }
